@@ -106,19 +106,39 @@ Print Assumptions C16_table_refines_map.
 (* the guard of (7) is met by every pool of keys of the simple kinds (nil, t, fixnums, bignums outside int64, ratios
    with a denominator above 1, characters, strings, symbols, vectors, lists) whose references are consistent: there the table (whose reported test is always eql) is
    a finite map under slip's eql, for every history. *)
-Theorem C16_simple_pool_ok : forall pool,
-  simple_pool pool = true ->
-  (forall a b, In a pool -> In b pool -> consistent2 a b /\ const_words a b) ->
-  pool_ok pool (pool_test 1 pool) = true.
+Theorem C16_simple_pool_ok : forall rs,
+  simple_pool rs = true ->
+  (forall a b, In a rs -> In b rs -> consistent2 a b /\ const_words a b) ->
+  pool_ok (map TRef rs) (pool_test 1 (map TRef rs)) = true.
 Proof. exact simple_pool_ok. Qed.
 Print Assumptions C16_simple_pool_ok.
-Theorem C16_table_is_map_on_simple_keys : forall pool ops,
-  simple_pool pool = true ->
-  (forall a b, In a pool -> In b pool -> consistent2 a b /\ const_words a b) ->
-  forallb (op_in_range (List.length pool)) ops = true ->
-  Forall2 obs_equiv (t_run pool [] ops) (s_run pool (pool_test 1 pool) [] ops).
+Theorem C16_table_is_map_on_simple_keys : forall rs ops,
+  simple_pool rs = true ->
+  (forall a b, In a rs -> In b rs -> consistent2 a b /\ const_words a b) ->
+  forallb (op_in_range (List.length rs)) ops = true ->
+  Forall2 obs_equiv (t_run (map TRef rs) [] ops) (s_run (map TRef rs) (pool_test 1 (map TRef rs)) [] ops).
 Proof. exact table_is_map_on_simple_keys. Qed.
 Print Assumptions C16_table_is_map_on_simple_keys.
+(* keys may also be signed-byte / unsigned-byte numbers (TByt: the other numbers held by a pointer, which
+   HashTable.Key must resolve by type and value too).  (7) quantifies over such pools as it stands; its guard pool_ok
+   is a boolean, evaluated on every pool of a run.  Here: separately allocated copies of one value are one key, and
+   the pool is inside the guard; a signed and an unsigned byte of one value, or a byte and the fixnum of its value,
+   are eql but different keys, outside the guard (finding C16-hash-eql-numbers-are-different-keys). *)
+Theorem C16_table_byte_keys :
+  t_run pool_byt [] ops_byt =
+    [OVal 1; OVal 2; ONum 1; OGet (Some 2%Z); OVal 3; OGet (Some 3%Z); OVal 8; OGet None; OBool true; OGet None; ONum 2;
+     OEntries [(2%nat, 3%Z); (4%nat, 8%Z)]] /\
+  s_run pool_byt (pool_test 1 pool_byt) [] ops_byt = t_run pool_byt [] ops_byt /\
+  pool_ok pool_byt (pool_test 1 pool_byt) = true.
+Proof. exact table_byte_keys. Qed.
+Print Assumptions C16_table_byte_keys.
+Theorem C16_table_byte_key_refuted :
+  t_run pool_byt_mixed [] [HPut 0 1; HGet 1; HGet 2; HPut 1 2; HCount] = [OVal 1; OGet None; OGet None; OVal 2; ONum 2] /\
+  s_run pool_byt_mixed (pool_test 1 pool_byt_mixed) [] [HPut 0 1; HGet 1; HGet 2; HPut 1 2; HCount] =
+    [OVal 1; OGet (Some 1%Z); OGet (Some 1%Z); OVal 2; ONum 1] /\
+  pool_coherent pool_byt_mixed (pool_test 1 pool_byt_mixed) = false /\ pool_equiv pool_byt_mixed (pool_test 1 pool_byt_mixed) = true.
+Proof. exact table_byte_key_refuted. Qed.
+Print Assumptions C16_table_byte_key_refuted.
 
 (* (8) refutations outside the guards: the known findings *)
 Theorem C16_transitivity_with_floats_refuted :
@@ -165,7 +185,7 @@ Theorem C16_table_bignum_key_by_value :
   t_run pool_big [] ops_big =
     [OVal 1; OGet (Some 1%Z); OVal 2; ONum 1; OVal 7; OGet (Some 7%Z); OGet None; OEntries [(0%nat, 2%Z); (2%nat, 7%Z)]; OBool true; ONum 1; OGet None] /\
   s_run pool_big (pool_test 1 pool_big) [] ops_big = t_run pool_big [] ops_big /\
-  simple_pool pool_big = true /\ pool_ok pool_big (pool_test 1 pool_big) = true.
+  pool_ok pool_big (pool_test 1 pool_big) = true.
 Proof. exact table_bignum_key_by_value. Qed.
 Print Assumptions C16_table_bignum_key_by_value.
 Theorem C16_table_float_key_refuted :
